@@ -246,7 +246,7 @@ var verifC14Static = []string{
 
 var verifC14Regex = []string{
 	"~^cam(\\d+)$", "~^cam", "~cam", "~^(.*)/(.*)$", "~^live/(?P<n>[a-z]+)$", "~^live/", "~^a", "~^A", "~a",
-	"~", "~(a)|(b)", "~^$", "~all", "~^.*$", "~^[a-z]+$", "~^([a-z]+)([0-9]*)$", "~x\\.y", "~.", "~(", "~[0-9]",
+	"~", "~(a)|(b)", "~^$", "~all", "~^.*$", "~^[a-z]+$", "~^([a-z]+)([0-9]*)$", "~x\\.y", "~.", "~[0-9]",
 	"~Z", "~_", "~^(c)(a)(m)(1)?", "~^all", "~\\.\\.", "~/", "~^(.+)$",
 }
 
